@@ -51,6 +51,9 @@ use self::{
   peephole::peephole_compile,
 };
 
+#[cfg(feature = "verif")]
+pub(crate) use self::peephole::{verif_apply_stack_effects, verif_peephole_optimize};
+
 #[cfg(feature = "debug")]
 use crate::debug::print_symbolic_code;
 
